@@ -12,17 +12,18 @@ use proptest::prelude::*;
 use std::collections::{BTreeMap, BTreeSet};
 
 #[derive(Clone, Debug)]
-pub struct SplitCase { pub all: LedgerCase, pub b_secs: Vec<String>, pub planted: String }
+pub struct SplitCase { pub all: LedgerCase, pub b_secs: Vec<String>, pub planted: String, /// file number of each row (same length as rows; empty = one file)
+    pub layout: Vec<u8> }
 
 impl SplitCase {
-    fn to_json(&self) -> JsonValue { let mut j = self.all.to_json(); j["b_secs"] = JsonValue::Array(self.b_secs.iter().map(|s| s.as_str().into()).collect()); j["planted"] = self.planted.as_str().into(); j }
-    fn from_json(v: &JsonValue) -> Option<SplitCase> { Some(SplitCase { all: LedgerCase::from_json(v)?, b_secs: v["b_secs"].members().filter_map(|x| x.as_str().map(|s| s.to_string())).collect(), planted: v["planted"].as_str().unwrap_or("").to_string() }) }
+    fn to_json(&self) -> JsonValue { let mut j = self.all.to_json(); j["b_secs"] = JsonValue::Array(self.b_secs.iter().map(|s| s.as_str().into()).collect()); j["planted"] = self.planted.as_str().into(); j["layout"] = JsonValue::Array(self.layout.iter().map(|x| (*x as u32).into()).collect()); j }
+    fn from_json(v: &JsonValue) -> Option<SplitCase> { Some(SplitCase { all: LedgerCase::from_json(v)?, b_secs: v["b_secs"].members().filter_map(|x| x.as_str().map(|s| s.to_string())).collect(), planted: v["planted"].as_str().unwrap_or("").to_string(), layout: v["layout"].members().filter_map(|x| x.as_u8()).collect() }) }
 }
 
 fn strategy(tier: Tier) -> BoxedStrategy<SplitCase> {
     let mut p = GenParams::ledger();
     p.max_rows = tier.pick(16, 30);
-    (ledger_strategy(p, 3), intent_strategy(), any::<u16>()).prop_map(|(base, it, mode)| {
+    (ledger_strategy(p, 3), intent_strategy(), any::<u16>(), proptest::collection::vec(0u8..3, 48)).prop_map(|(base, it, mode, lay)| {
         let secs = base.secs();
         // B = last security (or last two); A = the rest
         let nb = if secs.len() >= 3 && mode % 2 == 0 { 2 } else { 1 };
@@ -53,18 +54,32 @@ fn strategy(tier: Tier) -> BoxedStrategy<SplitCase> {
             }
             _ => {}
         }
-        SplitCase { all, b_secs, planted }
+        // a third of the cases spread the rows over two or three files (same spread for A, B and A+B)
+        let layout: Vec<u8> = if (mode / 5) % 3 == 0 { (0..all.rows.len()).map(|i| lay[i % lay.len()] % (2 + (mode / 15 % 2) as u8)).collect() } else { vec![] };
+        SplitCase { all, b_secs, planted, layout }
     }).boxed()
 }
 
-fn sub_case(c: &LedgerCase, secs: &BTreeSet<String>) -> LedgerCase {
-    LedgerCase { rows: c.rows.iter().filter(|r| secs.contains(&r.sec)).cloned().collect(), opening: c.opening.iter().filter(|o| secs.contains(&o.0)).cloned().collect(), tags: vec![] }
+fn sub_case(c: &LedgerCase, layout: &[u8], secs: &BTreeSet<String>) -> (LedgerCase, Vec<u8>) {
+    let keep: Vec<usize> = (0..c.rows.len()).filter(|i| secs.contains(&c.rows[*i].sec)).collect();
+    (LedgerCase { rows: keep.iter().map(|i| c.rows[*i].clone()).collect(), opening: c.opening.iter().filter(|o| secs.contains(&o.0)).cloned().collect(), tags: vec![] },
+     if layout.len() == c.rows.len() { keep.iter().map(|i| layout[*i]).collect() } else { vec![] })
+}
+/// the rows as input files: one file, or one per file number of the layout (files in number order, rows in row order)
+fn files_of(c: &LedgerCase, layout: &[u8]) -> Vec<(String, String)> {
+    if layout.len() != c.rows.len() || layout.is_empty() { return c.files(); }
+    let mut out = vec![];
+    for f in 0..=*layout.iter().max().unwrap() {
+        let rows: Vec<HRow> = c.rows.iter().zip(layout).filter(|(_, l)| **l == f).map(|(r, _)| r.clone()).collect();
+        if !rows.is_empty() { out.push((format!("f{f}.csv"), crate::gen::to_csv(&rows))); }
+    }
+    out
 }
 
 enum Run { Ok(Snap), RunErr(String) }
-fn run(c: &LedgerCase, opts: &RunOpts) -> Result<Run, Verdict> {
+fn run((c, layout): &(LedgerCase, Vec<u8>), opts: &RunOpts) -> Result<Run, Verdict> {
     if c.rows.is_empty() { return Ok(Run::Ok(Snap { secs: BTreeMap::new(), aggregate: crate::snapshot::TableSnap { header: vec![], rows: vec![], footer: vec![], notes: vec![], errors: vec![] }, costs: None })); }
-    let files = c.files();
+    let files = files_of(c, layout);
     let mut o = opts.clone();
     o.symbol_base = crate::gen::symbol_base_strings(&c.opening);
     match run_render(&files, &o, true, false) {
@@ -81,8 +96,8 @@ fn check(c: &SplitCase, obs: &mut Obs) -> Verdict {
     let a: BTreeSet<String> = all_secs.difference(&b).cloned().collect();
     if a.is_empty() || b.is_empty() { return Verdict::Skip("single-security".into()); }
     let opts = c.all.run_opts();
-    let csv = crate::gen::to_csv(&c.all.rows);
-    let (ra, rb, rab) = match (run(&sub_case(&c.all, &a), &opts), run(&sub_case(&c.all, &b), &opts), run(&c.all, &opts)) { (Ok(x), Ok(y), Ok(z)) => (x, y, z), (Err(v), _, _) | (_, Err(v), _) | (_, _, Err(v)) => return v };
+    let csv = files_of(&c.all, &c.layout).iter().map(|(n, t)| format!("--- {n}\n{t}")).collect::<Vec<_>>().join("");
+    let (ra, rb, rab) = match (run(&sub_case(&c.all, &c.layout, &a), &opts), run(&sub_case(&c.all, &c.layout, &b), &opts), run(&(c.all.clone(), c.layout.clone()), &opts)) { (Ok(x), Ok(y), Ok(z)) => (x, y, z), (Err(v), _, _) | (_, Err(v), _) | (_, _, Err(v)) => return v };
     let (sa, sb, sab) = match (ra, rb, rab) {
         (Run::Ok(x), Run::Ok(y), Run::Ok(z)) => (x, y, z),
         (Run::Ok(_), Run::RunErr(eb), Run::RunErr(eab)) => {
@@ -116,11 +131,12 @@ fn check(c: &SplitCase, obs: &mut Obs) -> Verdict {
     if b_failed { obs.class("B-has-rejected-security"); }
     if !c.planted.is_empty() { obs.class(format!("planted:{}", c.planted.split(':').nth(1).unwrap_or(""))); }
     if !c.all.opening.is_empty() { obs.class("opening-position"); }
+    if !c.layout.is_empty() { obs.class(format!("files:{}", files_of(&c.all, &c.layout).len())); }
     Verdict::Pass
 }
 
 pub fn def() -> PropDef {
-    let mut d = PropDef::new("C08", "a generated multi-security input is split into two inputs A and B over disjoint symbols (B optionally carrying a planted bookkeeping failure from the C04 list, or a split combination the tool refuses), keeping the original interleaving for A+B; three runs. Every cell of every table of A (resp. B) must be identical in A+B; aggregate(A+B) per year = aggregate(A) + aggregate(B) within 1e-9; A+B must not fail as a whole when only one half has a problem. Non-trivial = B contains a bookkeeping failure and A has at least one gain-bearing row. Distinct = distinct case content.");
+    let mut d = PropDef::new("C08", "a generated multi-security input is split into two inputs A and B over disjoint symbols (B optionally carrying a planted bookkeeping failure from the C04 list, or a split combination the tool refuses), keeping the original interleaving for A+B (a third of the cases spread the rows over two or three input files, the same spread in all three runs); three runs. Every cell of every table of A (resp. B) must be identical in A+B; aggregate(A+B) per year = aggregate(A) + aggregate(B) within 1e-9; A+B must not fail as a whole when only one half has a problem. Non-trivial = B contains a bookkeeping failure and A has at least one gain-bearing row. Distinct = distinct case content.");
     d.assumptions = vec!["affiliate display spelling is normalised (first spelling seen wins in the tool; not a figure)"];
     d.subs.push(Box::new(Sub::<SplitCase> { name: "split", cases_quick: 12_000, cases_thorough: 500_000, strategy: Box::new(strategy), to_json: SplitCase::to_json, from_json: SplitCase::from_json, check }));
     d
